@@ -13,6 +13,9 @@ import (
 
 // concRow is the j-th row of a concurrent-AddRow case (the Python side builds the same rows).
 func concRow(j int) map[string]string {
+	if j%11 == 10 {
+		return map[string]string{} // a row without columns: it still takes a row id
+	}
 	r := map[string]string{"tag": fmt.Sprintf("t%06d", j), "c": fmt.Sprintf("v%d", j%7)}
 	if j%5 != 0 {
 		r["d"] = fmt.Sprintf("w%d", j%3)
